@@ -64,7 +64,8 @@ class Func:
     @property
     def body(self):
         if self._body is None:
-            self._body = Lowerer(self.tu, self).lower_function()
+            from .ir import normalise
+            self._body = normalise(Lowerer(self.tu, self).lower_function())
         return self._body
 
     def __repr__(self):
